@@ -183,7 +183,11 @@ def _classify(w, prop_id, ob: Obligation, known, timeout) -> ObRec:
 def _unit(args):
     kind, key = args[:2]
     chunk, nchunks = (args[2], args[3]) if len(args) > 2 else (0, 1)
-    w, prop, known, timeout = _G["w"], _G["prop"], _G["known"], _G["timeout"]
+    prop, known, timeout = _G["prop"], _G["known"], _G["timeout"]
+    wname = "main"
+    if isinstance(key, str) and "::" in key:
+        wname, key = key.split("::", 1)
+    w = _G["worlds"][wname]
     t0 = time.time()
     out = {"kind": kind, "key": key, "records": [], "undecided": [], "meta": {}}
     try:
@@ -256,10 +260,15 @@ def run_property(prop: Prop, tier: str, seed: int, new_world, timeout_quick=30.0
         status["crash"] = f"axiom differential test could not run: {e}"
     w = new_world()
     prop.setup(w)
+    worlds = {"main": w}
+    for wn, fn in getattr(prop, "extra_worlds", {}).items():   # a property whose functions live under two incompatible abstractions of a shared callee
+        w2 = new_world()
+        fn(w2)
+        worlds[wn] = w2
     WITNESS_ENV.clear()
     WITNESS_ENV.update(getattr(sys.modules.get(type(prop).__module__), "witness_env", lambda: {})())
     known = load_known()
-    _G.update(w=w, prop=prop, known=known, timeout=timeout)
+    _G.update(w=w, worlds=worlds, prop=prop, known=known, timeout=timeout)
     heavy = getattr(prop, "heavy", {})
     units = []
     for t in prop.targets:
